@@ -111,11 +111,7 @@ def findSub (subs : List Sub) (k : Nat) : Option Sub := subs.find? (fun s => s.s
 
 /-- `subscribe_handler` -/
 def subscribe (m : State) (sid : SidRef) (cb : Option Str) (to : Option Str) : State × List Obs :=
-  let tv? : Option (Option Int) :=
-    match to with
-    | none => some none
-    | some s => (parseTimeout s).map some
-  match tv? with
+  match parseTO to with
   | none => (m, [.resp 400 none none])
   | some tv =>
     let timeout : Int := tv.getD Gen.C15.defaultTimeout
